@@ -155,8 +155,6 @@ Theorem C13_restart_refuted :
 Proof. exact restart_refuted. Qed.
 Print Assumptions C13_restart_refuted.
 
-Theorem C13_merge_refuted :
-  let L := [mkW OpMerge 1 (bk 107) (bk 1)] in
-  log_ok 0 L = true /\ view L = [(bk 107, bk 1)] /\ primary_view L = [].
-Proof. exact merge_refuted. Qed.
-Print Assumptions C13_merge_refuted.
+Theorem C13_merge_consistent : forall es, view es = primary_view es.
+Proof. exact merge_consistent. Qed.
+Print Assumptions C13_merge_consistent.
